@@ -511,7 +511,11 @@ struct AbbreviationDisplay<S>(S);
 impl<S: AsRef<str>> core::fmt::Display for AbbreviationDisplay<S> {
     fn fmt(&self, f: &mut core::fmt::Formatter) -> core::fmt::Result {
         let s = self.0.as_ref();
-        if s.chars().any(|ch| ch == '+' || ch == '-') {
+        // The unquoted form only supports ASCII letters. Anything else (the
+        // quoted form also permits digits, `+` and `-`) needs quotes, or
+        // else it won't parse back to the same abbreviation. For example,
+        // `<ABC1>5` would otherwise be written as `ABC15`.
+        if s.chars().any(|ch| !ch.is_ascii_alphabetic()) {
             write!(f, "<{s}>")
         } else {
             write!(f, "{s}")
